@@ -6,7 +6,7 @@
 //!   disagreeing with the dictionary, unknown codes, stray delimiters). Each byte string is read by the
 //!   real `DataSetReader` twice: `flexible_decoding(true)` (declared syntax: either LE syntax) and with
 //!   the decoder of the syntax it was really encoded in. Both token streams are printed.
-//!     `ds <enc i|e|b> <declared 0|1|2> <mode> <bytes> | <flex words…> | <fixed words…>`
+//!     `ds <enc i|e|b> <declared 0|1|2> <mode> <cut 0|1> <bytes> | <flex words…> | <fixed words…>`
 //! `compat`: exhaustive probe of `vr_compatible_with_virtual` through `decode_header` with a one-entry
 //!   dictionary: every probed VR × every `VirtualVr` (34 × 38).
 //!     `compat <probed VR> <dict vvr> <explicit|implicit> <vr> <len> <bytes_read>`
@@ -137,7 +137,7 @@ fn code_of(r: &mut Rng, tag: Tag) -> [u8; 2] {
 }
 
 /// a first element whose header is built by hand
-fn crafted_first(r: &mut Rng, enc: u8) -> Vec<u8> {
+fn crafted_first(r: &mut Rng, enc: u8, cut: &mut bool) -> Vec<u8> {
     let (g, e) = *r.pick(TAGS);
     let tag = Tag(g, e);
     let mut out = Vec::new();
@@ -159,6 +159,7 @@ fn crafted_first(r: &mut Rng, enc: u8) -> Vec<u8> {
         out.extend_from_slice(&len.to_le_bytes());
         let full = hi == 0 && r.chance(2, 3);
         let n = if full { len as usize } else { r.usize(0, 24) };
+        *cut |= n < len as usize;
         let fill = *r.pick(&[b'A', b' ', 0u8, b'1']);
         if r.chance(1, 4) {
             out.extend(r.bytes(n));
@@ -219,15 +220,17 @@ fn ds_case(r: &mut Rng, thorough: bool) -> String {
     let nodes = gen_dataset(r, 0, &o);
     let body = encode(r, &nodes, enc);
     let mut bytes = Vec::new();
+    // whether the byte string is (possibly) not a complete data set
+    let mut cut = false;
     match kind {
-        3..=34 => bytes.extend(crafted_first(r, enc)),
+        3..=34 => bytes.extend(crafted_first(r, enc, &mut cut)),
         35..=37 => {
             // stray item delimiters before the first element
             for _ in 0..r.usize(1, 3) {
                 bytes.extend_from_slice(&[0xFE, 0xFF, 0x0D, 0xE0, 0, 0, 0, 0]);
             }
             if r.chance(1, 2) {
-                bytes.extend(crafted_first(r, enc));
+                bytes.extend(crafted_first(r, enc, &mut cut));
             }
         }
         38 => {
@@ -244,6 +247,7 @@ fn ds_case(r: &mut Rng, thorough: bool) -> String {
         // truncated somewhere
         let k = r.usize(0, bytes.len() - 1);
         bytes.truncate(k);
+        cut = true;
     }
     let declared = if enc == 2 { 2 } else { r.below(2) as u8 };
     let mode = match r.below(10) {
@@ -253,7 +257,7 @@ fn ds_case(r: &mut Rng, thorough: bool) -> String {
     };
     let flex = read_words(&bytes, declared, true, mode);
     let fixed = read_words(&bytes, enc, false, mode);
-    format!("ds {} {} {} {} | {} | {}", ["i", "e", "b"][enc as usize], declared, mode, hex(&bytes), flex, fixed)
+    format!("ds {} {} {} {} {} | {} | {}", ["i", "e", "b"][enc as usize], declared, mode, cut as u8, hex(&bytes), flex, fixed)
 }
 
 // ---------------------------------------------------------------------------------------------
